@@ -9,12 +9,14 @@ use proptest::strategy::BoxedStrategy;
 use serde_json::json;
 
 use crate::case::{ops_sample, Case, CaseError, Env, Tier};
+use crate::crash::{for_each_crash_point, CrashCtx, Selection};
 use crate::exec::Exec;
-use crate::iotrace::Effect;
+use crate::iotrace::{Effect, Image};
+use crate::recover::recover;
 use crate::model::{Bytes, Outcome, QState};
 use crate::ops::{COp, GenCfg, Policy, SOp};
 use crate::runner::Property;
-use crate::util::{guarded, hash64};
+use crate::util::{guarded, hash64, mix};
 
 pub struct C18;
 
@@ -85,7 +87,10 @@ impl Property for C18 {
          observable content (existence, range(..) bytes, last_position) must be identical in both runs, and q's \
          content must not change across any call addressed to another queue. evaluations = (queue, comparison point) \
          pairs. non-trivial = a call to another queue unlinked >= 1 file while q retained records; distinct = \
-         hash(q, concrete history). Crash variants: see C02/C04 (crash inside another queue's GC) and the thorough tier."
+         hash(q, concrete history). Crash variants (histories run under Always(Flush|FlushAndFsync)): crash points are \
+         ENUMERATED over the recorded I/O trace (every effect boundary + byte cuts) and every queue the in-flight call does \
+         not address must recover exactly as after its own completed calls; non-trivial there = crash strictly inside a \
+         call to another queue that unlinks files while q retains records."
             .to_string()
     }
 
@@ -104,7 +109,7 @@ impl Property for C18 {
         super::case_strategy(
             &gen_cfg(tier),
             vec![Policy::DEFAULT, Policy::DEFAULT, Policy::DoNothing, Policy::Always { fsync: true }],
-            1,
+            4,
         )
     }
 
@@ -205,6 +210,62 @@ impl Property for C18 {
             }
         }
         env.class_n("queues-projected", touched.len() as u64);
+        // crash variants (flush-per-operation policies): a crash between calls, or strictly inside a call addressed
+        // to ANOTHER queue (notably between the unlinks of its GC), must leave q exactly as after q's completed calls
+        let crash_variant = case.extra.as_ref().map_or(false, |extra| extra.get("crash").is_some())
+            || case.words.first().map_or(false, |word| word % 3 == 0);
+        if matches!(case.policy, Policy::Always { .. }) && crash_variant {
+            let effects: Vec<Effect> = exec.effects().to_vec();
+            let frames = exec.driver.tracer.frames.clone();
+            let mut selection = Selection::standard(&case.words);
+            selection.exhaustive_below = 0;
+            selection.generated_cuts = 1;
+            selection.only = super::c02::parse_crash_point(&case.extra);
+            let crash_dir = env.scratch.fresh("c18-crash");
+            let history_hash = hash64(&cops);
+            for_each_crash_point(&Image::default(), &effects, &frames, &selection, |ctx: &CrashCtx| -> Result<(), CaseError> {
+                let inflight = ctx.inflight.filter(|op| *op != usize::MAX);
+                let inflight_target: Option<String> = inflight.and_then(|op| cops[op].queue().map(|q| q.text()));
+                let expected = match ctx.last_completed {
+                    Some(idx) if idx != usize::MAX => full_obs[idx].clone(),
+                    _ => Default::default(),
+                };
+                env.evals(1);
+                let extra = json!({"crash": {"k": ctx.point.k, "b": ctx.point.b}});
+                let where_ = format!("crash at effect {} byte {} ({}; in-flight call: {})", ctx.point.k, ctx.point.b, ctx.class.name(),
+                    inflight.map(|op| format!("#{op} {}", cops[op].short())).unwrap_or_else(|| "none".into()));
+                let mut recovered = match recover(ctx.image, &crash_dir, case.policy) {
+                    Ok(recovered) => recovered,
+                    Err(err) => {
+                        let (msg, signature) = err.into_case_error()?;
+                        return Err(exec.failure(format!("{where_}: {msg}"), signature, extra));
+                    }
+                };
+                recovered.driver.close()?;
+                let unlinks_in_call = inflight.map_or(false, |op| unlinking_ops.contains(&op));
+                for name in &touched {
+                    if inflight_target.as_deref() == Some(name.as_str()) {
+                        continue;
+                    }
+                    let want: Option<QState> = expected.get(name).cloned().unwrap_or(None);
+                    let got: Option<QState> = recovered.state.get(name).cloned();
+                    if got != want {
+                        return Err(exec.failure(
+                            format!("{where_}: queue {name:?}, which the in-flight call does not address, recovers as {} but its own completed calls give {}",
+                                describe(&got), describe(&want)),
+                            "other-queue-changed-by-crash",
+                            json!({"crash": {"k": ctx.point.k, "b": ctx.point.b}, "queue": name}),
+                        ));
+                    }
+                    if ctx.class.strictly_inside_op() && unlinks_in_call && want.as_ref().map_or(false, |queue| !queue.recs.is_empty()) {
+                        env.class("crash-inside-foreign-call-that-unlinks-while-queue-retains");
+                        env.nontrivial(mix(history_hash, hash64(&(ctx.point, name))));
+                    }
+                }
+                Ok(())
+            })?;
+            env.scratch.remove(&crash_dir);
+        }
         env.scratch.remove(&dir);
         Ok(())
     }
